@@ -266,9 +266,9 @@ func parent(out *Out, tier string, replay []string) {
 	if replay != nil {
 		jobs = []job{{"replay", len(replay)}}
 	} else {
-		per := map[string]int{"s": len(scenarios), "v": 900, "m": 1300}
+		per := map[string]int{"s": len(scenarios), "v": 3000, "m": 4500}
 		if tier == "thorough" {
-			per = map[string]int{"s": len(scenarios), "v": 15000, "m": 22000}
+			per = map[string]int{"s": len(scenarios), "v": 30000, "m": 45000}
 		}
 		for _, k := range strings.Split(*kindsFlag, ",") {
 			n := per[k]
